@@ -61,20 +61,50 @@ def paired(E, X):
 
 def link_matrix(E, X):
     """D[i, j] = |exit_i - entry_j| for particles of the same tomogram (i != j), else +inf."""
-    d = np.sqrt(((X["pos"][:, None, :] - E["pos"][None, :, :]) ** 2).sum(axis=2))
-    same = E["tomo"][:, None] == E["tomo"][None, :]
-    d = np.where(same, d, np.inf)
-    np.fill_diagonal(d, np.inf)
+    d = np.sqrt(sq_matrix(E, X))
     return d
 
 
+def sq_matrix(E, X):
+    d2 = ((X["pos"][:, None, :] - E["pos"][None, :, :]) ** 2).sum(axis=2)
+    same = E["tomo"][:, None] == E["tomo"][None, :]
+    d2 = np.where(same, d2, np.inf)
+    np.fill_diagonal(d2, np.inf)
+    return d2
+
+
+def _lattice_rows(P):
+    """rows whose coordinates are multiples of 1/8 below 2**20: differences, squares and their sums are exact in float64."""
+    return np.all(P * 8 == np.round(P * 8), axis=1) & np.all(np.abs(P) < 2.0 ** 20, axis=1)
+
+
+def _lattice_value(b):
+    return bool(b * 8 == round(b * 8) and abs(b) < 2.0 ** 20)
+
+
+def exact_pairs(E, X, dmin, dmax):
+    """pairs (exit i, entry j) whose squared distance and the squared bounds are exactly representable: ties with a bound are
+    decided exactly there (d == min is NOT in (min, max], d == max is)."""
+    if not (_lattice_value(dmin) and _lattice_value(dmax)):
+        return np.zeros((E["n"], E["n"]), dtype=bool)
+    return np.outer(_lattice_rows(X["pos"]), _lattice_rows(E["pos"]))
+
+
+def candidates(E, X, dmin, dmax):
+    """boolean matrix: exit i -> entry j is an admissible link, i.e. same tomogram, i != j, distance in (min, max]."""
+    d2 = sq_matrix(E, X)
+    ex = exact_pairs(E, X, dmin, dmax)
+    d = np.sqrt(d2)
+    with np.errstate(invalid="ignore"):
+        return np.where(ex, (d2 > dmin * dmin) & (d2 <= dmax * dmax), (d > dmin) & (d <= dmax))
+
+
 def boundary_clear(E, X, dmin, dmax, eps=1e-9):
-    """no candidate link distance within eps of min_distance or max_distance (such inputs are excluded, not judged)."""
+    """no INEXACT candidate distance within eps of min_distance or max_distance (such inputs are excluded, not judged); pairs on the
+    1/8 lattice with lattice bounds are never excluded: their ties are exact and are judged."""
     d = link_matrix(E, X)
-    d = d[np.isfinite(d)]
-    if d.size == 0:
-        return True
-    return bool(np.all(np.abs(d - dmax) > eps) and np.all(np.abs(d - dmin) > eps))
+    near = np.isfinite(d) & ((np.abs(d - dmax) <= eps) | (np.abs(d - dmin) <= eps))
+    return not bool((near & ~exact_pairs(E, X, dmin, dmax)).any())
 
 
 def validate(E, X, out, dmin, dmax, tol=1e-9):
@@ -92,6 +122,7 @@ def validate(E, X, out, dmin, dmax, tol=1e-9):
         alien = [k for k in cnt_out if k not in cnt_in][:8]
         w["partition"] = {"n_in": int(E["n"]), "n_out": int(out["n"]), "missing_ids": missing, "repeated_ids": dup,
                           "unknown_ids": alien}
+    exact = exact_pairs(E, X, dmin, dmax)
     row_of = {s: k for k, s in enumerate(E["sub"].tolist())}
     src = np.array([row_of.get(s, -1) for s in out["sub"].tolist()], dtype=int)
     known = src >= 0
@@ -132,11 +163,14 @@ def validate(E, X, out, dmin, dmax, tol=1e-9):
                     w["tomogram"] = {"what": "consecutive chain members from different tomograms", "former": float(E["sub"][i]),
                                      "latter": float(E["sub"][j]), "tomos": [float(E["tomo"][i]), float(E["tomo"][j])]}
                 continue
-            d = float(np.sqrt(((X["pos"][i] - E["pos"][j]) ** 2).sum()))
-            if not (d > dmin and d <= dmax) and w["link_range"] is None:
+            d2 = float(((X["pos"][i] - E["pos"][j]) ** 2).sum())
+            d = float(np.sqrt(d2))
+            inside = (d2 > dmin * dmin and d2 <= dmax * dmax) if exact[i, j] else (d > dmin and d <= dmax)
+            if not inside and w["link_range"] is None:
                 w["link_range"] = {"tomo": float(uk[g, 0]), "object": float(uk[g, 1]), "former": float(E["sub"][i]),
                                    "latter": float(E["sub"][j]), "order_of_former": float(out["order"][a_]),
-                                   "exit_to_entry": d, "min_distance": float(dmin), "max_distance": float(dmax)}
+                                   "exit_to_entry": d, "min_distance": float(dmin), "max_distance": float(dmax),
+                                   "exact_lattice_pair": bool(exact[i, j])}
             rec = float(out["dist"][a_])
             if not (abs(rec - d) <= tol) and w["link_recorded"] is None:
                 w["link_recorded"] = {"tomo": float(uk[g, 0]), "object": float(uk[g, 1]), "former": float(E["sub"][i]),
